@@ -884,3 +884,74 @@ package types
 //@   requires forall i int :: {coinsB[i]} 0 <= i && i < len(coinsB) ==> coinsB[i].Amount.i != nil && val(coinsB[i].Amount) > 0
 //@   requires forall i int :: {coins[i]} 0 <= i && i < len(coins) ==> coins[i].Amount.i != nil && val(coins[i].Amount) > 0 && denom_re(coins[i].Denom)
 //@   ensures [sound] r ==> len(coinsB) > 0 && (forall i int :: {coins[i]} 0 <= i && i < len(coins) ==> amtB(coins[i].Denom) > val(coins[i].Amount))
+
+// ---------------------------------------------------------------- single coins (exact, incl. panics)
+//@ func validate(denom string, amount Int) (err error)
+//@   props C18
+//@   uses reinv
+//@   requires amount.i != nil
+//@   ensures (err == nil) == (denom_re(denom) && val(amount) >= 0)
+
+//@ func NewCoin(denom string, amount Int) (r Coin)
+//@   props C18
+//@   uses reinv
+//@   requires amount.i != nil
+//@   panics when !denom_re(denom) || val(amount) < 0
+//@   ensures r.Denom == denom && r.Amount == amount
+
+//@ func (coin Coin) IsValid() (r bool)
+//@   props C18
+//@   uses reinv
+//@   requires coin.Amount.i != nil
+//@   ensures r == (denom_re(coin.Denom) && val(coin.Amount) >= 0)
+
+//@ func (coin Coin) IsGTE(other Coin) (r bool)
+//@   props C18
+//@   requires coin.Amount.i != nil && other.Amount.i != nil
+//@   panics string when coin.Denom != other.Denom
+//@   ensures r == (val(coin.Amount) >= val(other.Amount))
+
+//@ func (coin Coin) IsLT(other Coin) (r bool)
+//@   props C18
+//@   requires coin.Amount.i != nil && other.Amount.i != nil
+//@   panics string when coin.Denom != other.Denom
+//@   ensures r == (val(coin.Amount) < val(other.Amount))
+
+//@ func (coin Coin) IsEqual(other Coin) (r bool)
+//@   props C18
+//@   requires coin.Amount.i != nil && other.Amount.i != nil
+//@   panics string when coin.Denom != other.Denom
+//@   ensures r == (val(coin.Amount) == val(other.Amount))
+
+//@ func (coin Coin) Sub(coinB Coin) (r Coin)
+//@   props C18
+//@   requires coin.Amount.i != nil && coinB.Amount.i != nil
+//@   panics string when coin.Denom != coinB.Denom
+//@   panics string when coin.Denom == coinB.Denom && abs(val(coin.Amount) - val(coinB.Amount)) >= pow2(255)
+//@   panics string when coin.Denom == coinB.Denom && abs(val(coin.Amount) - val(coinB.Amount)) < pow2(255) && val(coin.Amount) - val(coinB.Amount) < 0
+//@   ensures r.Denom == coin.Denom && r.Amount.i != nil && fresh(r.Amount.i) && val(r.Amount) == val(coin.Amount) - val(coinB.Amount) && val(r.Amount) >= 0
+
+// C18: IsAnyGT / IsAnyGTE: some denomination that coinsB holds is held by coins in a larger (not smaller) amount
+//@ func (coins Coins) IsAnyGT(coinsB Coins) (r bool)
+//@   props C18
+//@   uses reinv
+//@   define amtB(d) := coinsB[i].Denom => val(coinsB[i].Amount) for i in 0..len(coinsB) else 0
+//@   requires forall i int, j int :: {coinsB[i], coinsB[j]} 0 <= i && i < j && j < len(coinsB) ==> str_lt(coinsB[i].Denom, coinsB[j].Denom)
+//@   requires forall i int :: {coinsB[i]} 0 <= i && i < len(coinsB) ==> coinsB[i].Amount.i != nil
+//@   requires forall i int :: {coins[i]} 0 <= i && i < len(coins) ==> coins[i].Amount.i != nil && denom_re(coins[i].Denom)
+//@   loop 1 frame
+//@   loop 1 invariant 0 - 1 <= #rangeindex && #rangeindex < len(coins) && len(coinsB) > 0
+//@   loop 1 invariant forall i int :: {coins[i]} 0 <= i && i <= #rangeindex ==> !(val(coins[i].Amount) > amtB(coins[i].Denom) && amtB(coins[i].Denom) != 0)
+//@   ensures r == (len(coinsB) > 0 && (exists i int :: 0 <= i && i < len(coins) && val(coins[i].Amount) > amtB(coins[i].Denom) && amtB(coins[i].Denom) != 0))
+
+//@ func (coins Coins) IsAnyGTE(coinsB Coins) (r bool)
+//@   props C18
+//@   uses reinv
+//@   define amtB(d) := coinsB[i].Denom => val(coinsB[i].Amount) for i in 0..len(coinsB) else 0
+//@   requires forall i int, j int :: {coinsB[i], coinsB[j]} 0 <= i && i < j && j < len(coinsB) ==> str_lt(coinsB[i].Denom, coinsB[j].Denom)
+//@   requires forall i int :: {coinsB[i]} 0 <= i && i < len(coinsB) ==> coinsB[i].Amount.i != nil
+//@   requires forall i int :: {coins[i]} 0 <= i && i < len(coins) ==> coins[i].Amount.i != nil && denom_re(coins[i].Denom)
+//@   loop 1 frame
+//@   loop 1 invariant 0 - 1 <= #rangeindex && #rangeindex < len(coins) && len(coinsB) > 0
+//@   loop 1 invariant forall i int :: {coins[i]} 0 <= i && i <= #rangeindex ==> !(val(coins[i].Amount) >= amtB(coins[i].Denom) && amtB(coins[i].Denom) != 0)
+//@   ensures r == (len(coinsB) > 0 && (exists i int :: 0 <= i && i < len(coins) && val(coins[i].Amount) >= amtB(coins[i].Denom) && amtB(coins[i].Denom) != 0))
